@@ -83,6 +83,7 @@ func vh_L2_nafTable() {
 }
 
 var nafDigits [9][256]int8 // by width
+var nafLog [][256]int8     // in call order
 
 //verif:contract for=(*curve/scalar.Scalar).NonAdjacentForm group=nafabs
 func na_NAF(s *scalar.Scalar, w uint) [256]int8 {
@@ -101,6 +102,7 @@ func na_NAF(s *scalar.Scalar, w uint) [256]int8 {
 		d[j] = x
 	}
 	nafDigits[w] = d
+	nafLog = append(nafLog, d)
 	return d
 }
 
